@@ -143,7 +143,7 @@ public:
 
     void set_next( size_type level, node_ptr n ) {
         __TBB_ASSERT(n == nullptr || n->height() > level, "Broken internal structure");
-        get_atomic_next(level).store(n, std::memory_order_relaxed);
+        get_atomic_next(level).store(n, std::memory_order_release);
     }
 
     size_type height() const {
